@@ -135,6 +135,9 @@ func genCfg(rnd *tr.Rand, focus string) *caseCfg {
 		case "close-drain-error":
 			c.sndbuf = 4096
 			c.inject = []inject{{name: "wr", index: 2, kind: "epipe", cid: -1}}
+		case "et-backlog":
+			// edge-triggered, more than IOV_MAX queued chunks behind a backlog: every batch must be followed up
+			c.et, c.sndbuf = true, 4096
 		case "shutdown-sweep":
 			c.maxConns = 3
 		case "register-fails":
